@@ -57,7 +57,7 @@ var (
 		{"2024-11-05", "2025-03-26", "2025-06-18", "2025-11-25", "2026-07-28"},
 		{"2025-11-25", "2026-07-28"},
 	}
-	c07Inits = []string{"std", "unknown-version", "error", "future-version", "echo"}
+	c07Inits = []string{"std", "unknown-version", "error", "future-version", "echo", "modern"}
 )
 
 const c07Modern = "2026-07-28"
@@ -557,6 +557,9 @@ func runC07Script(c *vh.Case, spec c07Spec) {
 				sc.Inject(vhm.Resp(req.ID, vhm.InitializeResultJSON("1999-01-01")))
 			case "future-version":
 				sc.Inject(vhm.Resp(req.ID, vhm.InitializeResultJSON("2027-01-01")))
+			case "modern":
+				// a server that answers the legacy handshake with the sessionless protocol's version, which has no handshake
+				sc.Inject(vhm.Resp(req.ID, vhm.InitializeResultJSON(c07Modern)))
 			case "error":
 				sc.Inject(vhm.ErrResp(req.ID, -32603, "initialize failed", ""))
 			}
